@@ -207,6 +207,93 @@ theorem C05_signal_only_when_first_slot_frees_counterexample :
 example : ((grunSched false fan4 (ginit fan4) fan4Sched).map fun g =>
     (g.asleep 4, (gstepV false fan4 g (.tgt 4)).isSome)) = some (false, true) := by decide +kernel
 
+/-! ### the status wait with `cond.Wait` / `cond.Broadcast` made explicit
+
+`WState` / `wstep` refine the gate-level model once more: a dependent (or the caller of `Run`) that finds the target
+running goes to sleep in `t.c.Wait()` and moves again only after that target's `run` has set the status and
+`Broadcast`; every woken waiter re-tests. Every refined step is a `gstep` or leaves the gate-level state unchanged
+(for every `WMode`), so C04, C09 and the cycle theorems hold of `w.g.core`. -/
+
+/-- refinement: the gate-level state and the core of a reachable status-wait-level state are reachable -/
+theorem status_wait_refines {mode : WMode} {P : Params} {w : WState} (h : WReachableV mode P w) :
+    GReachable P w.g ∧ Reachable P w.g.core := ⟨h.g, h.core⟩
+
+/-- C04 at the level of the condition variable: a thread sleeps in `wait()` only while the target it waits for is
+    still running — no dependent is left asleep on a finished dependency (both exits of `run` broadcast). -/
+theorem C04_no_lost_wakeup_status {P : Params} {w : WState} (hr : WReachable P w) (t : Tid)
+    (hs : w.wsleep t = true) : ∃ d, sleepsOn P w.g.core t = some d ∧ w.g.core.status d = .running :=
+  hr.invW t hs
+
+/-- C04 `deps_first` holds of the refined model (through the refinement) -/
+theorem C04_deps_first_broadcast {P : Params} {w : WState} (hr : WReachable P w) (l : Label) (hs : List Err)
+    (hp : w.g.core.pc l = some (.enter2 (some hs)) ∨ w.g.core.pc l = some (.evalRest (some hs))) :
+    (∀ d ∈ P.deps l, (w.g.core.status d).final = true) ∧ hs = (P.deps l).map w.g.core.err :=
+  C04_deps_first hr.core l hs hp
+
+/-- C05 with `Wait`/`Broadcast` (and `Wait`/`Signal` at the gate) explicit: no reachable unfinished state is stuck -/
+theorem C05_deadlock_free_broadcast {P : Params} (hcap : 1 ≤ P.cap) {w : WState} (hr : WReachable P w)
+    (hnd : w.g.core.isDone = false) : ∃ t w', wstep P w t = some w' :=
+  w_deadlock_free hcap hr hnd
+
+theorem C05_quiescent_broadcast {P : Params} (hcap : 1 ≤ P.cap) {w : WState} (hr : WReachable P w)
+    (hstuck : ∀ t, wstep P w t = none) :
+    w.g.core.isDone = true ∧ ∀ l p, w.g.core.pc l = some p → p = .done :=
+  w_stuck_all_done hcap hr hstuck
+
+/-- `0 → 1`, target 1 unknown, limit one -/
+def unknownDep : Params where
+  deps := fun l => match l with | 0 => [1] | _ => []
+  known := fun l => l != 1
+  bodyOk := fun _ => true
+  cap := 1
+  root := 0
+
+def unknownDepSched : List Tid := [.main, .main, .tgt 0, .tgt 0, .tgt 0, .tgt 0, .tgt 0, .tgt 0, .tgt 0, .tgt 0, .tgt 0, .tgt 1, .tgt 1, .tgt 1, .tgt 1, .tgt 1]
+
+/-- Regression witness (seeded change: the `LoadTarget`-error exit of `run` unlocks without `Broadcast`): target 0 goes
+    to sleep waiting for the unknown target 1, target 1 fails to load and stores its status without waking anybody;
+    0 and the caller of `Run` sleep for ever although 1 has finished. `C04_no_lost_wakeup_status` and
+    `C05_deadlock_free_broadcast` fail for that code. -/
+theorem C04_exit_without_broadcast_counterexample :
+    ∃ w, WReachableV .noBroadcastOnLoadFailure unknownDep w ∧ w.g.core.isDone = false ∧
+      w.wsleep (.tgt 0) = true ∧ w.g.core.status 1 = .failed ∧
+      (threads w.g.core).all (fun t => (wstepV .noBroadcastOnLoadFailure unknownDep w t).isNone) = true := by
+  have h : ∃ w, wrunSched .noBroadcastOnLoadFailure unknownDep (winit unknownDep) unknownDepSched = some w ∧
+      w.g.core.isDone = false ∧ w.wsleep (.tgt 0) = true ∧ w.g.core.status 1 = .failed ∧
+      (threads w.g.core).all (fun t => (wstepV .noBroadcastOnLoadFailure unknownDep w t).isNone) = true := by
+    decide +kernel
+  obtain ⟨w, h1, h2⟩ := h
+  exact ⟨w, wreachableV_of_wrunSched _ .init h1, h2⟩
+
+/-- the diamond with room for everybody (limit four) -/
+def diamond4 : Params where
+  deps := fun l => match l with | 0 => [1, 2] | 1 => [3] | 2 => [3] | _ => []
+  known := fun _ => true
+  bodyOk := fun _ => true
+  cap := 4
+  root := 0
+
+def diamondSignalSched : List Tid := [.main, .main, .tgt 0, .tgt 0, .tgt 0, .tgt 0, .tgt 0, .tgt 0, .tgt 0, .tgt 0, .tgt 0, .tgt 0, .tgt 0, .tgt 1, .tgt 1, .tgt 1, .tgt 1, .tgt 1, .tgt 1, .tgt 1, .tgt 1, .tgt 1, .tgt 2, .tgt 2, .tgt 2, .tgt 2, .tgt 2, .tgt 2, .tgt 2, .tgt 2, .tgt 2, .tgt 3, .tgt 3, .tgt 3, .tgt 3, .tgt 3, .tgt 3, .tgt 3, .tgt 3, .tgt 3, .tgt 3, .tgt 1, .tgt 1, .tgt 1, .tgt 1, .tgt 1, .tgt 0, .tgt 0, .tgt 1, .tgt 1, .tgt 3, .tgt 3]
+
+/-- Regression witness (`Signal` instead of `Broadcast`): in the diamond both 1 and 2 sleep waiting for 3; when 3
+    finishes only the longer sleeper is woken, 2 sleeps for ever on a finished target and the build never ends. -/
+theorem C04_signal_instead_of_broadcast_counterexample :
+    ∃ w, WReachableV .signal diamond4 w ∧ w.g.core.isDone = false ∧
+      w.wsleep (.tgt 2) = true ∧ (w.g.core.status 3).final = true ∧
+      (threads w.g.core).all (fun t => (wstepV .signal diamond4 w t).isNone) = true := by
+  have h : ∃ w, wrunSched .signal diamond4 (winit diamond4) diamondSignalSched = some w ∧
+      w.g.core.isDone = false ∧ w.wsleep (.tgt 2) = true ∧ (w.g.core.status 3).final = true ∧
+      (threads w.g.core).all (fun t => (wstepV .signal diamond4 w t).isNone) = true := by
+    decide +kernel
+  obtain ⟨w, h1, h2⟩ := h
+  exact ⟨w, wreachableV_of_wrunSched _ .init h1, h2⟩
+
+/-- under the code (`Broadcast` on both exits) the same two schedules leave nobody asleep on a finished target -/
+example : ((wrunSched .broadcast unknownDep (winit unknownDep) unknownDepSched).map fun w =>
+    (w.wsleep (.tgt 0), (wstep unknownDep w (.tgt 0)).isSome)) = some (false, true) := by decide +kernel
+example : ((wrunSched .broadcast diamond4 (winit diamond4) (diamondSignalSched.take 45)).map fun w =>
+    (w.wsleep (.tgt 1), w.wsleep (.tgt 2))) = some (false, false) := by decide +kernel
+
 /-- C05 (D17 repaired): when `Run` returns, every started target has ended — the build is over. -/
 theorem C05_run_waits_all {P : Params} {s : State} (hr : Reachable P s) (e : Err) (hd : s.main = .done e) :
     ∀ l p, s.pc l = some p → p = .done :=
